@@ -573,7 +573,21 @@ func genC14(r *Rand, p *Plan, tier string) {
 		// then hostile material
 		nBad := 1 + r.Intn(4)
 		for k := 0; k < nBad; k++ {
-			switch r.Intn(9) {
+			switch r.Intn(10) {
+			case 9: // a login left waiting for its next packet, continued with a well-formed packet of another type
+				u := g.names[r.Intn(len(g.names))]
+				st := SessASCII(g.nextSid(), flags, u, g.pws[u], r.Bool(), -1)
+				first := *st.Pkts[0]
+				cs.Ops = append(cs.Ops, Op{Kind: "send", Pkt: &first})
+				var other SessScript
+				if r.Bool() {
+					other = SessAuthor(first.Session, 0xc0, flags, u, GenAuthorArgs(r, d))
+				} else {
+					other = SessAcct(first.Session, 0xc0, flags, 3, u, PickOf(r, uint8(2), 4, 8), GenAcctArgs(r))
+				}
+				op := *other.Pkts[0]
+				op.Seq = 3
+				cs.Ops = append(cs.Ops, Op{Kind: "send", Pkt: &op})
 			case 0:
 				cs.Ops = append(cs.Ops, Op{Kind: "raw", Raw: r.Bytes(r.Len(400))})
 			case 1: // valid header, random body
